@@ -11,8 +11,12 @@ impl Ending {
 }
 
 #[derive(Clone, Debug)]
-pub struct ProgOpts { pub io: bool, pub input: bool, pub faults: bool, pub calls: bool, pub max_blocks: usize, pub unbalanced: bool }
-impl Default for ProgOpts { fn default() -> Self { ProgOpts { io: true, input: true, faults: false, calls: true, max_blocks: 8, unbalanced: false } } }
+pub struct ProgOpts { pub io: bool, pub input: bool, pub faults: bool, pub calls: bool, pub max_blocks: usize, pub unbalanced: bool,
+    /// every register the program reads is written first and the buffer is initialized data (no strict-mode errors of the program's own making)
+    pub strict_clean: bool,
+    /// the program never touches R6 (no stack set-up, no push/pop, only leaf subroutines)
+    pub no_stack: bool }
+impl Default for ProgOpts { fn default() -> Self { ProgOpts { io: true, input: true, faults: false, calls: true, max_blocks: 8, unbalanced: false, strict_clean: false, no_stack: false } } }
 
 #[derive(Clone, Debug)]
 pub struct UserProg {
@@ -53,6 +57,7 @@ impl<'a> B<'a> {
             2 => { self.out.push(s(K::Ldi(d, lab("PTR")))); self.used("LDI"); }
             3 => { self.out.push(s(K::Sti(d, lab("PTR")))); self.used("STI"); }
             4 => { let k = self.rng.below(8) as i32; self.out.push(s(K::Lea(p, lab("BUF")))); self.out.push(s(K::Str(d, p, k))); let d2 = self.gr(); self.out.push(s(K::Ldr(d2, p, k))); self.used("LEA/STR/LDR"); }
+            _ if self.opts.no_stack => self.alu(),
             _ => { // push/pop on the user stack
                 self.out.push(s(K::Add(6, 6, Src::Imm(-1)))); self.out.push(s(K::Str(d, 6, 0))); self.alu(); self.out.push(s(K::Ldr(d, 6, 0))); self.out.push(s(K::Add(6, 6, Src::Imm(1)))); self.used("stack-push-pop");
             }
@@ -122,8 +127,8 @@ pub fn gen_user_prog(rng: &mut Rng, opts: &ProgOpts) -> UserProg {
     let nsubs = if opts.calls { rng.usize(4) } else { 0 };
     let mut b = B { rng, out: vec![], n_label: 0, uses: vec![], kbd: 0, opts: opts.clone(), nsubs };
     b.out.push(s(K::Orig(0x3000)));
-    b.out.push(s(K::Ld(6, lab("STACK"))));
-    for r in 0..6u8 { if b.rng.chance(2, 3) { b.out.push(s(K::And(r, r, Src::Imm(0)))); if b.rng.bool() { let v = b.rng.range(-16, 15) as i32; b.out.push(s(K::Add(r, r, Src::Imm(v)))); } } }
+    if !opts.no_stack { b.out.push(s(K::Ld(6, lab("STACK")))); }
+    for r in 0..6u8 { if opts.strict_clean || b.rng.chance(2, 3) { b.out.push(s(K::And(r, r, Src::Imm(0)))); if b.rng.bool() { let v = b.rng.range(-16, 15) as i32; b.out.push(s(K::Add(r, r, Src::Imm(v)))); } } }
     let nb = 1 + b.rng.usize(opts.max_blocks);
     for _ in 0..nb { b.block(0, false); }
     let ending = if opts.faults { *b.rng.pick(&[Ending::Halt, Ending::AcvLoad, Ending::AcvStore, Ending::AcvJump, Ending::PrivRti, Ending::IllegalOpcode, Ending::BadFormat]) } else { Ending::Halt };
@@ -141,13 +146,13 @@ pub fn gen_user_prog(rng: &mut Rng, opts: &ProgOpts) -> UserProg {
     for k in 1..=nsubs {
         let name = format!("SUB{k}");
         subs.push(name.clone());
-        let leaf = k == nsubs || b.rng.chance(1, 3);
+        let leaf = k == nsubs || opts.no_stack || b.rng.chance(1, 3);
         let start = b.out.len();
         if !leaf { b.out.push(s(K::Add(6, 6, Src::Imm(-1)))); b.out.push(s(K::Str(7, 6, 0))); }
         b.alu();
         if b.rng.bool() { b.mem(); }
         if !leaf { let j = k + 1 + b.rng.usize(nsubs - k); b.out.push(s(K::Jsr(lab(&format!("SUB{j}"))))); b.alu(); b.out.push(s(K::Ldr(7, 6, 0))); b.out.push(s(K::Add(6, 6, Src::Imm(1)))); b.used("nested-call"); }
-        if opts.io && b.rng.chance(1, 4) { b.out.push(s(K::Add(6, 6, Src::Imm(-1)))); b.out.push(s(K::Str(7, 6, 0))); b.output(); b.out.push(s(K::Ldr(7, 6, 0))); b.out.push(s(K::Add(6, 6, Src::Imm(1)))); }
+        if opts.io && !opts.no_stack && b.rng.chance(1, 4) { b.out.push(s(K::Add(6, 6, Src::Imm(-1)))); b.out.push(s(K::Str(7, 6, 0))); b.output(); b.out.push(s(K::Ldr(7, 6, 0))); b.out.push(s(K::Add(6, 6, Src::Imm(1)))); }
         b.out.push(s(K::Ret));
         b.out[start].labels.push(name);
     }
@@ -158,7 +163,8 @@ pub fn gen_user_prog(rng: &mut Rng, opts: &ProgOpts) -> UserProg {
     b.out.push(ls("PTR", K::Fill(lab("BUF"))));
     b.out.push(ls("PSUP", K::Fill(PcOp::Num(*b.rng.pick(&[0x0000, 0x0200, 0x2FFF, 0xFE00, 0xFFFF, 0x01FF])))));
     b.out.push(ls("STACK", K::Fill(PcOp::Num(*b.rng.pick(&[0xFE00, 0xF000, 0x8000, 0x4000])))));
-    b.out.push(ls("BUF", K::Blkw(8)));
+    if opts.strict_clean { for i in 0..8 { let v = b.rng.u16() as i32; b.out.push(if i == 0 { ls("BUF", K::Fill(PcOp::Num(v))) } else { s(K::Fill(PcOp::Num(v))) }); } }
+    else { b.out.push(ls("BUF", K::Blkw(8))); }
     let s1: String = (0..b.rng.usize(9)).map(|_| (0x21 + b.rng.below(0x5d) as u8) as char).collect();
     let s2: String = (0..b.rng.usize(5)).map(|_| (0x21 + b.rng.below(0x5d) as u8) as char).collect();
     b.out.push(ls("STR1", K::Stringz(s1)));
